@@ -1,6 +1,7 @@
 package main
 
 import (
+	"errors"
 	"bufio"
 	"bytes"
 	"fmt"
@@ -65,15 +66,30 @@ func fdecSrcCase(rr *h.Rand, p *party, file []byte, armored bool, truth []byte, 
 	oracle := ""
 	if err != nil {
 		impl = fmt.Sprintf("err consulted=%d", n)
+		var nm *age.NoIdentityMatchError
+		if errors.As(err, &nm) {
+			impl = fmt.Sprintf("err nomatch%d consulted=%d", len(nm.Errors), n)
+		}
 	} else {
-		buf := make([]byte, h.Pick(rr, []int{1, 7, 4096, 65536, 70000}))
+		buf := make([]byte, h.Pick(rr, []int{1, 7, 4096, 65536, 70000, 2 * C, 3*C + 1, 1 << 20}))
 		var rerr error
-		for {
-			k, e := rd.Read(buf)
-			out = append(out, buf[:k]...)
-			if e != nil {
-				rerr = e
-				break
+		if rr.Intn(3) == 0 {
+			// the way cmd/age drains it (io.Copy uses WriteTo when the reader has one)
+			var bb bytes.Buffer
+			_, rerr = io.Copy(onlyWriter{&bb}, rd)
+			out = bb.Bytes()
+			if rerr == nil {
+				rerr = io.EOF
+			}
+			desc += ", drained with io.Copy"
+		} else {
+			for {
+				k, e := rd.Read(buf)
+				out = append(out, buf[:k]...)
+				if e != nil {
+					rerr = e
+					break
+				}
 			}
 		}
 		cls := rErrClass(rerr)
@@ -106,6 +122,7 @@ func fdecSrcCase(rr *h.Rand, p *party, file []byte, armored bool, truth []byte, 
 }
 
 func runC12(cx *ctx) {
+	c12IOCases(cx)
 	armorTrailCases(cx, "c12-", true, false)
 	r := cx.rng
 	// whole files through age.Decrypt under every kind of source, valid and damaged, binary and armored
@@ -194,6 +211,17 @@ func runC12(cx *ctx) {
 				ct := realEncrypt(key, pt)
 				return srCase("sr-valid", key, ct, false, randPieces(rr), rr.Bool(), randSizes(rr), pt, ct, "valid payload")
 			})
+			rr2 := r.Fork()
+			cx.ru.Do(func() *h.Case {
+				key := rr2.Bytes(32)
+				pt := rr2.Bytes(n)
+				ct := realEncrypt(key, pt)
+				return srCopyCase("sr-valid-copy", key, ct, false, randPieces(rr2), rr2.Bool(), rr2.Intn(4), pt, ct, "valid payload")
+			})
+			rr3 := r.Fork()
+			cx.ru.Do(func() *h.Case {
+				return swCopyCase("sw-copy", rr3.Bytes(32), rr3.Bytes(n), rr3.Intn(2), "writer fed by io.Copy")
+			})
 		}
 	}
 	// reader: damaged payloads must give the same bytes and error class under every schedule
@@ -207,6 +235,14 @@ func runC12(cx *ctx) {
 				ct := realEncrypt(key, pt)
 				bad, note := damage(rr, ct)
 				return srCase("sr-damaged", key, bad, false, randPieces(rr), rr.Bool(), randSizes(rr), pt, ct, note)
+			})
+			rr2 := r.Fork()
+			cx.ru.Do(func() *h.Case {
+				key := rr2.Bytes(32)
+				pt := rr2.Bytes(n)
+				ct := realEncrypt(key, pt)
+				bad, note := damage(rr2, ct)
+				return srCopyCase("sr-damaged-copy", key, bad, false, randPieces(rr2), rr2.Bool(), rr2.Intn(4), pt, ct, note)
 			})
 		}
 	}
